@@ -227,6 +227,23 @@ var kindLetter = map[string]byte{"short-frame": 's', "len4": 'l', "bad-version":
 	"huge-header-size": 'h', "tiny-header-size": 't', "bad-pair-size": 'p', "no-opid": 'o', "wrong-op": 'w',
 	"truncated": 'c', "garbage": 'g', "wrong-struct": 'x'}
 
+// kindDoc describes each kind relative to a valid body
+// size(4) | 0x00 | hsize(4) | (nsize name vsize value)* | thrift message.
+var kindDoc = map[string]string{
+	"short-frame":      "0-3 random bytes",
+	"len4":             "the 4 size bytes only",
+	"bad-version":      "valid body with version byte (offset 4) 1..255",
+	"neg-header-size":  "valid body with hsize (offset 5..8) one of ffffffff, 80000000, fffffff0, ffffffXX",
+	"huge-header-size": "valid body with hsize = remaining length + 1 (+0..999), 00100000 or 04000000",
+	"tiny-header-size": "valid body with hsize = 1..7 (1..3 leave less than one size field)",
+	"bad-pair-size":    "valid body with the first pair's name size or value size one of ffffffff, 7fffffff, 80000000, len(body)",
+	"no-opid":          "valid body without the _opid header",
+	"wrong-op":         "valid body of the scope's other operation (its name and struct type)",
+	"truncated":        "valid body cut inside the Thrift message (at least 8 bytes before its end)",
+	"garbage":          "5-64 random bytes with a non-zero version byte",
+	"wrong-struct":     "valid headers and operation name, struct of another type",
+}
+
 // mutate derives a malformed body of the given kind from a valid reference
 // frame (kinds wrong-op / wrong-struct / no-opid are built by the caller).
 func mutate(r *rand.Rand, kind string, valid []byte) []byte {
